@@ -112,7 +112,9 @@ pub fn proxy_outcome(c: &ProxyCase) -> Outcome {
                     l.raw_handshake(kind.a_compatible_peer(), None);
                     let a = sim.attach(s, &l);
                     let _ = sim.run(a).await;
-                    if cap == Capture::Pub {
+                    if cap == Capture::Pub && c.schedule.len() % 2 == 1 {
+                        // subscribe to everything (even schedules: to every client's identity,
+                        // exactly - see below, once the identities are known)
                         l.raw_send_now(&[vec![1u8]]);
                         let _ = sim.settle().await;
                     }
@@ -163,6 +165,20 @@ pub fn proxy_outcome(c: &ProxyCase) -> Outcome {
                     clients.push(ClientRt::Raw { link: l, lockstep: cs.kind == 1, waiting: false });
                 }
                 ids.push(id);
+            }
+            if c.capture == Capture::Pub && c.schedule.len() % 2 == 0 {
+                // every forwarded message starts with a client's identity: the monitor follows
+                // each client by subscribing to exactly that identity (a subscription as long
+                // as the first frame)
+                if let Some(l) = &cap_link {
+                    for id in &ids {
+                        let mut sub = vec![1u8];
+                        sub.extend_from_slice(id);
+                        l.raw_send_now(&[sub]);
+                    }
+                    let _ = sim.settle().await;
+                    classes.push("capture-subscribed-to-exact-identities".into());
+                }
             }
             let mut workers: Vec<WorkerRt> = vec![];
             for lib in &c.workers {
